@@ -352,3 +352,9 @@ Proof.
   - unfold push_ok. rewrite H. rewrite orb_true_r. cbn [orb andb]. apply IH; [apply push_text_fpi; exact H | exact Ho2].
   - destruct (extend_fpi ss P H) as [I1 I2]. rewrite I2. cbn [andb]. apply IH; [exact I1 | exact Ho2].
 Qed.
+
+Lemma session_text_ok ops : forall P, file_path_ok P = true -> file_path_ok (session_text STFile P ops) = true.
+Proof.
+  induction ops as [|o r IH]; intros P H; cbn [session_text fold_left]; [exact H|].
+  apply IH. apply op_text_ok. exact H.
+Qed.
